@@ -77,7 +77,8 @@ theorem batchStep_fold {α β ε} (ap : List α → Except ε (List β)) (x : Li
       cases mapBatchesE ap (los.map fun lo => pySlice x lo (lo + k)) <;> simp
 
 /-- the translated loop of `Transform._apply_batched` is the model's generic batching (first failing batch raises,
-otherwise the results stacked), for EVERY batch size (also 0) and every `_apply` -/
+otherwise the results stacked), for every `_apply`; the statement also covers the batch size 0, where Python raises
+and the model loops `n + 1` times over empty slices: a fact about the model only (the property theorems carry `ValidBatch`) -/
 theorem applyBatchedSrc_eq {α β ε} (ap : List α → Except ε (List β)) (bs : Option Nat) (x : List α) :
     applyBatchedSrc ap bs x =
       match bs with
@@ -93,6 +94,7 @@ theorem applyBatchedSrc_eq {α β ε} (ap : List α → Except ε (List β)) (bs
       simp only [applyBatchedSrc, Option.isNone_some, Bool.false_eq_true, if_false, hx, beq_iff_eq,
         Py.forLoop_eq_foldl, Option.getD_some, applyBatchedE]
       simp only [batchFinish, List.flatten_nil, List.nil_append] at h
+      simp only [vstackL_eq]
       refine h.trans ?_
       cases mapBatchesE ap (batches k x) <;> rfl
 
@@ -204,7 +206,7 @@ theorem pwaApplyBatchedSrc_eq_fold {α β} (ap : List α → Except (List Bool) 
       rw [pyRange_slices] at h1 h2 h3
       simp only [List.flatten_nil, List.nil_append, Bool.false_or] at h1 h2 h3
       simp only [pwaApplyBatchedSrc, Option.isNone_some, Bool.false_eq_true, if_false, hx, beq_iff_eq,
-        Py.forLoop_eq_foldl, Option.getD_some, h1, h2, h3]
+        Py.forLoop_eq_foldl, Option.getD_some, vstackL_eq, hstackL_eq, h1, h2, h3]
       generalize foldBatchesG ap (batches k x) = fb
       obtain ⟨o, m, t⟩ := fb
       cases t <;> simp [finishBatches]
@@ -393,8 +395,10 @@ theorem pwaApplySrc_eq (src tgt : List Tri) (ps : List Pt) :
 
 /-- PROPERTY (the piecewise-affine transform, on the translated functions end to end): `_apply_batched` over `_apply`
 over `index_alpha_beta` over `alpha_beta` / `containment_from_alpha_beta`, for every valid batch size and every mix of
-points: the stateless piecewise-affine result — the barycentric images, or the mask with one entry per input point,
-`true` exactly at the points outside every source triangle -/
+points: the stateless piecewise-affine result of the MODEL (`toPwa`: `contains` = `inTriangle ∘ alphaBeta`, rational
+division) — the images, or the mask with one entry per input point, `true` exactly at the points no source triangle
+`contains`.  `contains` is the closed triangle for triangles of non-zero area only (`contains_iff_closed_triangle`,
+hypothesis `gram ≠ 0`); on a zero-area triangle the model (1/0 = 0) and numpy (inf / nan) differ: INFO, assumptions -/
 theorem pwa_src_end_to_end (src tgt : List Tri) (bs : Option Nat) (hbs : ValidBatch bs) (ps : List Pt) :
     pwaApplyBatchedSrc (pwaApplySrc (pythonIabSrc src) (tgt.map Tri.i) (tgt.map Tri.ij) (tgt.map Tri.ik)) bs ps =
       (toPwa src tgt).apply ps := by
@@ -462,38 +466,59 @@ theorem chain_pwa_batched_src {α} (g h : α → α) (d : Pwa α α) (bs : Optio
 /-! ### the memo -/
 
 /-- the hit test of `CachedPWA.index_alpha_beta` (not None, same shape, `array_equal`) is equality with the stored copy -/
-theorem cachedIabSrc_hit_iff {Val} [DecidableEq Val] (shape : Val → Nat) (key : Option Val) (points : Val) :
-    (key.isNone || !(shapeEqO shape points key) || !(arrEqO points key)) = false ↔ key = some points := by
+theorem cachedIabSrc_hit_iff {Val} [DecidableEq Val] (shape : Val → Nat) (key : Option (Owned Val)) (points : Val) :
+    (key.isNone || !(shapeEqO shape points key) || !(arrEqO points key)) = false ↔ key = some ⟨points⟩ := by
   cases key with
   | none => simp
   | some w =>
+    obtain ⟨w⟩ := w
     by_cases hw : w = points
     · subst hw; simp [shapeEqO, arrEqO]
-    · have : ¬ (some w = some points) := by simpa using hw
+    · have : ¬ ((some ⟨w⟩ : Option (Owned Val)) = some ⟨points⟩) := by
+        intro h; injection h with h; injection h with h; exact hw h
       simp [arrEqO, this]
+
+/-- the memo of the state machine `step2` (a key that is a VALUE) as the attributes of the translated step (a key that
+is an owned copy) -/
+def memoOf {Val Res} (s : St2 Val Res) : MemoSt Val Res := ⟨s.key.map Owned.copy, s.iab⟩
+
+theorem map_val_map_copy {Val} (k : Option Val) : (k.map Owned.copy).map Owned.val = k := by
+  cases k <;> rfl
+theorem map_copy_map_val {Val} (k : Option (Owned Val)) : (k.map Owned.val).map Owned.copy = k := by
+  cases k <;> rfl
 
 /-- the state machine the history theorems are about takes exactly the translated step -/
 theorem step2_eq_cachedIabSrc {Val Res Err} [DecidableEq Val] (shape : Val → Nat) (compute : Val → Except Err Res)
     (s : St2 Val Res) (a : Nat) :
     step2 false compute s (.apply a) =
-      ({ heap := s.heap, key := (cachedIabSrc shape compute ⟨s.key, s.iab⟩ (s.heap a)).1.key,
-         iab := (cachedIabSrc shape compute ⟨s.key, s.iab⟩ (s.heap a)).1.iab },
-       some (cachedIabSrc shape compute ⟨s.key, s.iab⟩ (s.heap a)).2) := by
+      ({ heap := s.heap, key := (cachedIabSrc shape compute (memoOf s) (s.heap a)).1.key.map Owned.val,
+         iab := (cachedIabSrc shape compute (memoOf s) (s.heap a)).1.iab },
+       some (cachedIabSrc shape compute (memoOf s) (s.heap a)).2) := by
   by_cases hk : s.key = some (s.heap a)
-  · have hc := (cachedIabSrc_hit_iff shape s.key (s.heap a)).mpr hk
-    have : cachedIabSrc shape compute ⟨s.key, s.iab⟩ (s.heap a) = (⟨s.key, s.iab⟩, .ok s.iab) := by
+  · have hk' : (memoOf s).key = some ⟨s.heap a⟩ := by simp [memoOf, hk, Owned.copy]
+    have hc := (cachedIabSrc_hit_iff shape (memoOf s).key (s.heap a)).mpr hk'
+    have : cachedIabSrc shape compute (memoOf s) (s.heap a) = (memoOf s, .ok s.iab) := by
       unfold cachedIabSrc; rw [hc]; rfl
     rw [this]
     simp only [step2]
     rw [if_pos hk]
-  · have hne : (s.key.isNone || !(shapeEqO shape (s.heap a) s.key) || !(arrEqO (s.heap a) s.key)) = true := by
-      cases hb : (s.key.isNone || !(shapeEqO shape (s.heap a) s.key) || !(arrEqO (s.heap a) s.key)) with
+    simp only [memoOf, map_val_map_copy]
+  · have hk' : ¬ (memoOf s).key = some ⟨s.heap a⟩ := by
+      intro h
+      apply hk
+      cases hs : s.key with
+      | none => simp [memoOf, hs] at h
+      | some w =>
+        simp only [memoOf, hs, Option.map_some, Owned.copy, Option.some.injEq, Owned.mk.injEq] at h
+        rw [h]
+    have hne : ((memoOf s).key.isNone || !(shapeEqO shape (s.heap a) (memoOf s).key) || !(arrEqO (s.heap a) (memoOf s).key)) = true := by
+      cases hb : ((memoOf s).key.isNone || !(shapeEqO shape (s.heap a) (memoOf s).key) || !(arrEqO (s.heap a) (memoOf s).key)) with
       | true => rfl
-      | false => exact absurd ((cachedIabSrc_hit_iff shape s.key (s.heap a)).mp hb) hk
-    have : cachedIabSrc shape compute ⟨s.key, s.iab⟩ (s.heap a) =
+      | false => exact absurd ((cachedIabSrc_hit_iff shape (memoOf s).key (s.heap a)).mp hb) hk'
+    have : cachedIabSrc shape compute (memoOf s) (s.heap a) =
         match compute (s.heap a) with
-        | .error e => (⟨s.key, s.iab⟩, .error e)
-        | .ok v => (⟨some (s.heap a), some v⟩, .ok (some v)) := by
+        | .error e => (memoOf s, .error e)
+        | .ok v => (⟨some ⟨s.heap a⟩, some v⟩, .ok (some v)) := by
       unfold cachedIabSrc; rw [hne]
       simp only [if_true]
       cases compute (s.heap a) <;> rfl
@@ -501,10 +526,15 @@ theorem step2_eq_cachedIabSrc {Val Res Err} [DecidableEq Val] (shape : Val → N
     simp only [step2]
     rw [if_neg hk]
     simp only [Bool.false_eq_true, if_false]
-    cases compute (s.heap a) <;> rfl
+    cases compute (s.heap a) with
+    | error e =>
+      obtain ⟨heap, key, iab⟩ := s
+      simp only [memoOf, map_val_map_copy]
+    | ok v => simp
 
 /-- a history run with an arbitrary `index_alpha_beta` step: what every `apply` returned, with the array's values at that
-moment -/
+moment.  An in-place edit of a caller's array (`write`) changes the heap only: the step's state holds OWNED copies
+(`MemoSt.key : Option (Owned Val)`), which is what the translated source must type-check against -/
 def runMemo {Val Res Err} (step : MemoSt Val Res → Val → MemoSt Val Res × Except Err (Option Res)) :
     (Nat → Val) → MemoSt Val Res → List (Op Val) → List (Val × Except Err (Option Res))
   | _, _, [] => []
@@ -518,7 +548,7 @@ def runSrc {Val Res Err} [DecidableEq Val] (shape : Val → Nat) (compute : Val 
 
 theorem runSrc_eq_run2 {Val Res Err} [DecidableEq Val] (shape : Val → Nat) (compute : Val → Except Err Res)
     (ops : List (Op Val)) : ∀ (s : St2 Val Res),
-    runSrc shape compute s.heap ⟨s.key, s.iab⟩ ops = run2 false compute s ops := by
+    runSrc shape compute s.heap (memoOf s) ops = run2 false compute s ops := by
   unfold runSrc
   induction ops with
   | nil => intro s; rfl
@@ -533,8 +563,10 @@ theorem runSrc_eq_run2 {Val Res Err} [DecidableEq Val] (shape : Val → Nat) (co
       rw [step2_eq_cachedIabSrc shape]
       simp only
       congr 1
-      exact ih { heap := s.heap, key := (cachedIabSrc shape compute ⟨s.key, s.iab⟩ (s.heap a)).1.key,
-                 iab := (cachedIabSrc shape compute ⟨s.key, s.iab⟩ (s.heap a)).1.iab }
+      have h := ih { heap := s.heap, key := (cachedIabSrc shape compute (memoOf s) (s.heap a)).1.key.map Owned.val,
+                     iab := (cachedIabSrc shape compute (memoOf s) (s.heap a)).1.iab }
+      simp only [memoOf, map_copy_map_val] at h
+      exact h
 
 /-- PROPERTY (no history or aliasing effects, on the translated `CachedPWA.index_alpha_beta`): a fresh caching transform
 driven through any finite interleaving of applies and in-place edits of the caller's arrays (re-use, values that differ
@@ -543,7 +575,7 @@ theorem cachedPwa_history_pure_src {Val Res Err} [DecidableEq Val] (shape : Val 
     (ops : List (Op Val)) (heap : Nat → Val) :
     ∀ p ∈ runSrc shape compute heap ⟨none, none⟩ ops, p.2 = liftRes (compute p.1) := by
   have h := runSrc_eq_run2 shape compute ops { heap := heap, key := none, iab := none }
-  simp only at h
+  simp only [memoOf, Option.map_none] at h
   rw [h]
   exact apply_pure_two_attributes compute ops _ (fresh_memo2Ok _ heap)
 
@@ -604,15 +636,15 @@ local instance exceptDecEqSrc {ε α} [DecidableEq ε] [DecidableEq α] : Decida
 example : pyRange 7 2 = [0, 2, 4, 6] ∧ pyRange 4 2 = [0, 2] ∧ pyRange 3 7 = [0] ∧ pyRange 0 3 = [] := by decide
 example : pySlice [1, 2, 3, 4, 5] 2 4 = [3, 4] ∧ pySlice [1, 2, 3, 4, 5] 4 6 = [5] := by decide
 example : ValidBatch none ∧ ValidBatch (some 3) := by simp [ValidBatch]
-example : applyBatchedSrc (ε := Unit) (fun c => .ok (c.map (· + 1))) (some 2) [1, 2, 3, 4, 5] = .ok [2, 3, 4, 5, 6] := by rfl
-example : pwaApplyBatchedSrc dEven.apply (some 2) [1, 0, 2, 3, 4] = .error [false, true, false, false, false] := by rfl
-example : pwaApplyBatchedSrc dEven.apply (some 2) [1, 2, 3] = .ok [1, 2, 3] := by rfl
+example : applyBatchedSrc (ε := Unit) (fun c => .ok (c.map (· + 1))) (some 2) [1, 2, 3, 4, 5] = .ok [2, 3, 4, 5, 6] := by decide +kernel
+example : pwaApplyBatchedSrc dEven.apply (some 2) [1, 0, 2, 3, 4] = .error [false, true, false, false, false] := by decide +kernel
+example : pwaApplyBatchedSrc dEven.apply (some 2) [1, 2, 3] = .ok [1, 2, 3] := by decide +kernel
 example : applyBatchedSrc dEven.apply (some 2) [1, 2, 0, 3, 4] = .error [true, false] := by rfl
 example : pythonIabSrc exSrc [(2, 2), (1, 1)] = .ok ([1, 0], [0, 1/4], [1/2, 1/4]) := by decide +kernel
 example : pwaApplySrc (pythonIabSrc exSrc) (exTgt.map Tri.i) (exTgt.map Tri.ij) (exTgt.map Tri.ik) [(2, 2), (1, 1), (3, 3)] =
     .ok [(5, 6), (3, 3), (7, 9)] := by decide +kernel
-example : (cachedIabSrc (Val := Nat) (Res := Nat) (Err := Unit) (fun _ => 1) (fun v => .ok (v + 100)) ⟨some 5, some 105⟩ 5).2 = .ok (some 105) ∧
-    (cachedIabSrc (Val := Nat) (Res := Nat) (Err := Unit) (fun _ => 1) (fun v => .ok (v + 100)) ⟨some 5, some 105⟩ 6).2 = .ok (some 106) := by
+example : (cachedIabSrc (Val := Nat) (Res := Nat) (Err := Unit) (fun _ => 1) (fun v => .ok (v + 100)) ⟨some ⟨5⟩, some 105⟩ 5).2 = .ok (some 105) ∧
+    (cachedIabSrc (Val := Nat) (Res := Nat) (Err := Unit) (fun _ => 1) (fun v => .ok (v + 100)) ⟨some ⟨5⟩, some 105⟩ 6).2 = .ok (some 106) := by
   constructor <;> rfl
 example : withDimsSrc (.one 1) [[1, 2, 3], [4, 5, 6]] = .d2 [[2], [5]] ∧
     withDimsSrc (.many [2, 0]) [[1, 2, 3], [4, 5, 6]] = .d2 [[3, 1], [6, 4]] := by decide +kernel
